@@ -18,7 +18,9 @@
    AES-SIV is a Section variable: [seal] with the only assumption that the
    ciphertext is 16 bytes longer than the plaintext, and for the last theorem
    [open] with [open (seal ...) = plaintext]; an instance is given at the end. *)
-From ST Require Import Base.Ints Base.Bytes Model.CookiePool Proofs.CookiePoolProofs.
+From ST Require Import Base.Ints Base.Bytes Model.CookiePool Model.CookieOracle Model.CookieSystem Model.Provider
+  Proofs.CookiePoolProofs Proofs.CookieCodecProofs Proofs.CookieRefine Proofs.CookieOracleProofs
+  Proofs.CookieSystemC12 Proofs.CookieWorld.
 From Coq Require Import ZArith List Bool Lia.
 Import ListNotations.
 Open Scope Z_scope.
@@ -92,6 +94,7 @@ Theorem C11_fits : forall level,
 Proof. exact fits_issued. Qed.
 Print Assumptions C11_fits.
 
+(* (near-definitional: both sides compute) *)
 Theorem C11_issued_cookie_length : serverCookieLen = 124 /\ max_cookies 32 serverCookieLen = 7.
 Proof. split; reflexivity. Qed.
 Print Assumptions C11_issued_cookie_length.
@@ -109,7 +112,7 @@ Proof.
 Qed.
 Print Assumptions C11_fits_general.
 
-(* ---------- the pool ---------- *)
+(* ---------- the pool (abstract history system; the same over the concrete system below) ---------- *)
 
 (* a successful exchange never shrinks the pool, and no call makes it larger than eight *)
 Theorem C11_pool_bounds : forall (C : Type) (issue : nat -> C),
@@ -117,11 +120,11 @@ Theorem C11_pool_bounds : forall (C : Type) (issue : nat -> C),
   forall clen, clen <= MaxCookieLen ->
   forall s o, reachable issue clen s ->
   (length (s_pool (sys_step issue clen s o)) <= 8)%nat /\
-  (e_ok o = true -> (length (s_pool s) <= length (s_pool (sys_step issue clen s o)))%nat).
+  (e_ok o = true -> e_nosend o = false -> (length (s_pool s) <= length (s_pool (sys_step issue clen s o)))%nat).
 Proof.
   intros C issue Hinj clen Hc s o Hr. pose proof (reachable_inv issue Hinj clen s Hr) as HI. split.
   - exact (pool_le_eight issue Hinj clen s o HI).
-  - intros Hok. exact (proj1 (success_never_shrinks issue Hinj clen Hc s o HI Hok)).
+  - intros Hok Hns. exact (proj1 (success_never_shrinks issue Hinj clen Hc s o HI Hok Hns)).
 Qed.
 Print Assumptions C11_pool_bounds.
 
@@ -129,7 +132,7 @@ Print Assumptions C11_pool_bounds.
 Theorem C11_stays_eight : forall (C : Type) (issue : nat -> C),
   (forall i j, issue i = issue j -> i = j) ->
   forall clen, clen <= MaxCookieLen ->
-  forall s o, reachable issue clen s -> e_ok o = true -> length (s_pool s) = 8%nat ->
+  forall s o, reachable issue clen s -> e_ok o = true -> e_nosend o = false -> length (s_pool s) = 8%nat ->
   length (s_pool (sys_step issue clen s o)) = 8%nat.
 Proof.
   intros C issue Hinj clen Hc s o Hr. exact (stays_eight issue Hinj clen Hc s o (reachable_inv issue Hinj clen s Hr)).
@@ -144,24 +147,29 @@ Theorem C11_loss_free_eight : forall (C : Type) (issue : nat -> C),
 Proof. intros C issue Hinj clen Hc os. exact (loss_free_eight issue Hinj clen Hc os). Qed.
 Print Assumptions C11_loss_free_eight.
 
-(* a lost exchange costs exactly the cookie that was sent; an empty pool is refilled by
-   a key exchange (eight cookies, one of them used at once); when that fails nothing is sent *)
+(* a lost exchange - or a call that ends before its request leaves (deadline, unusable server
+   address) - costs exactly the cookie taken for it; an empty pool is refilled by a key exchange
+   (eight cookies, one of them used at once); when that fails nothing is sent *)
 Theorem C11_losses_and_rekeying : forall (C : Type) (issue : nat -> C),
   (forall i j, issue i = issue j -> i = j) ->
   forall clen, clen <= MaxCookieLen ->
   forall s o, reachable issue clen s ->
-  (s_pool s <> [] -> e_ok o = false ->
+  (s_pool s <> [] -> e_ok o = false \/ e_nosend o = true ->
      length (s_pool (sys_step issue clen s o)) = (length (s_pool s) - 1)%nat) /\
-  (s_pool s = [] -> e_ke_ok o = true -> e_ok o = false -> length (s_pool (sys_step issue clen s o)) = 7%nat) /\
-  (s_pool s = [] -> e_ke_ok o = true -> e_ok o = true -> length (s_pool (sys_step issue clen s o)) = 8%nat) /\
+  (e_nosend o = true -> s_sent (sys_step issue clen s o) = s_sent s) /\
+  (s_pool s = [] -> e_ke_ok o = true -> e_ok o = false \/ e_nosend o = true ->
+     length (s_pool (sys_step issue clen s o)) = 7%nat) /\
+  (s_pool s = [] -> e_ke_ok o = true -> e_ok o = true -> e_nosend o = false ->
+     length (s_pool (sys_step issue clen s o)) = 8%nat) /\
   (s_pool s = [] -> e_ke_ok o = false ->
      s_pool (sys_step issue clen s o) = [] /\ s_sent (sys_step issue clen s o) = s_sent s).
 Proof.
   intros C issue Hinj clen Hc s o Hr. pose proof (reachable_inv issue Hinj clen s Hr) as HI.
-  split; [|split; [|split]].
+  split; [|split; [|split; [|split]]].
   - intros Hne Hok. exact (loss_pops_one issue Hinj clen Hc s o HI Hne Hok).
+  - intros Hns. exact (nosend_sends_nothing issue clen s o Hns).
   - intros He Hk Hok. exact (rekey_loss issue Hinj clen Hc s o He Hk Hok).
-  - intros He Hk Hok. exact (rekey_success issue Hinj clen Hc s o He Hk Hok).
+  - intros He Hk Hok Hns. exact (rekey_success issue Hinj clen Hc s o He Hk Hok Hns).
   - intros He Hk. exact (kefail_nothing issue clen s o He Hk).
 Qed.
 Print Assumptions C11_losses_and_rekeying.
@@ -170,7 +178,7 @@ Print Assumptions C11_losses_and_rekeying.
 Theorem C11_recovers_in_two : forall (C : Type) (issue : nat -> C),
   (forall i j, issue i = issue j -> i = j) ->
   forall s o1 o2, reachable issue 124 s ->
-  e_ke_ok o1 = true -> e_ok o1 = true -> e_ok o2 = true ->
+  e_ke_ok o1 = true -> e_ok o1 = true -> e_nosend o1 = false -> e_ok o2 = true -> e_nosend o2 = false ->
   length (s_pool (sys_step issue 124 (sys_step issue 124 s o1) o2)) = 8%nat.
 Proof.
   intros C issue Hinj s o1 o2 Hr. exact (recovers_in_two issue Hinj s o1 o2 (reachable_inv issue Hinj 124 s Hr)).
@@ -213,7 +221,7 @@ Proof.
 Qed.
 Print Assumptions C11_reply_cookie_count.
 
-(* the requester can authenticate the reply: with the S2C key, the nonce and the bytes
+(* (near-definitional: it unfolds reply_wire and applies the assumption on open) the requester can authenticate the reply: with the S2C key, the nonce and the bytes
    before the authenticator, AES-SIV opens the ciphertext to the cookie fields *)
 Theorem C11_reply_authenticable : forall (seal : bytes -> bytes -> bytes -> bytes -> bytes)
   (open : bytes -> bytes -> bytes -> bytes -> option bytes),
@@ -225,20 +233,150 @@ Theorem C11_reply_authenticable : forall (seal : bytes -> bytes -> bytes -> byte
 Proof. intros seal open Ho. exact (reply_opens seal open Ho). Qed.
 Print Assumptions C11_reply_authenticable.
 
+(* ---------- the concrete system: the functions the check executes ---------- *)
+
+(* Model/CookieSystem.v composes one call of the client out of fetch, client_request,
+   server_reply, client_process and store - the functions the dispatcher runs on the observed
+   datagrams - with the NTS-KE server, the NTP server's NTS branch and the key provider.
+   K : crypto bundles AES-SIV and the sealing of server cookies with what is assumed of them;
+   P : provider bundles Current/Get with the four facts C12 proves (c12_provider below is that
+   instance).  wreach = reached from a client without data by calls with well-formed inputs
+   (32-byte identifiers and keys, 16-byte nonces, 48-byte NTP headers, time not running backwards),
+   for any pattern of deliveries, lost requests, lost replies, calls that end before sending,
+   failing key exchanges, ageing of the provider and cookies issued to others. *)
+
+(* refinement: a call of the concrete system is a step of the abstract history system on the
+   cookies' identities (the number of the server nonce inside), with the same outcome *)
+Theorem C11_refinement : forall (K : crypto) (P : provider) s o s' ob,
+  wreach K P s -> wf_op o -> wstep K P s o = Some (s', ob) ->
+  exists e, walpha K P s' = sys_step (fun k : nat => k) (k_L K) (walpha K P s) e /\
+            e_skip e = o_skip o /\ e_nosend e = ob_nosend ob /\ e_ok e = ob_intact ob /\
+            (e_ke_ok e = true <-> o_ke o <> None).
+Proof. exact W_step_refines. Qed.
+Print Assumptions C11_refinement.
+
+Theorem C11_reachable_refines : forall (K : crypto) (P : provider) s,
+  wreach K P s -> reachable (fun k : nat => k) (k_L K) (walpha K P s).
+Proof. exact W_reach_abstract. Qed.
+Print Assumptions C11_reachable_refines.
+
+(* no cookie is sent twice, over every run of the concrete system *)
+Theorem C11_concrete_no_reuse : forall (K : crypto) (P : provider) s,
+  wreach K P s -> NoDup (cs_sent s).
+Proof. exact W_no_reuse. Qed.
+Print Assumptions C11_concrete_no_reuse.
+
+Theorem C11_concrete_sent_leaves_pool : forall (K : crypto) (P : provider) s x,
+  wreach K P s -> In x (cs_sent s) -> ~ In x (pool (cs_client s)).
+Proof. exact W_sent_leaves_pool. Qed.
+Print Assumptions C11_concrete_sent_leaves_pool.
+
+(* the pool over one call from any reachable state: never more than eight; an authenticated reply
+   never shrinks it, keeps eight at eight, and refills an empty pool to eight; anything else costs
+   one cookie; a key exchange that fails leaves nothing and sends nothing; a call sends at most one
+   cookie: the head of the pool (or of the key exchange) *)
+Theorem C11_concrete_pool : forall (K : crypto) (P : provider) s o s' ob,
+  wreach K P s -> wf_op o -> wstep K P s o = Some (s', ob) ->
+  let n := length (pool (cs_client s)) in
+  let n' := length (pool (cs_client s')) in
+  (n' <= 8)%nat /\
+  (ob_intact ob = true -> (n <= n')%nat /\ (n = 8%nat -> n' = 8%nat) /\ (n = 0%nat -> n' = 8%nat)) /\
+  (ob_intact ob = false -> n <> 0%nat -> n' = (n - 1)%nat) /\
+  (n = 0%nat -> o_ke o <> None -> ob_intact ob = false -> n' = 7%nat) /\
+  (n = 0%nat -> o_ke o = None -> n' = 0%nat /\ ob_sent ob = None) /\
+  (ob_sent ob = None -> cs_sent s' = cs_sent s) /\
+  (ob_sent ob <> None -> exists c, cs_sent s' = c :: cs_sent s /\
+                                   (pool (cs_client s) = [] \/ exists r, pool (cs_client s) = c :: r)).
+Proof. exact W_pool. Qed.
+Print Assumptions C11_concrete_pool.
+
+(* the server's reply (reply_good, Proofs/CookieRefine.v): the request decodes; the reply carries
+   reply_count (server_issue_count of the decoded request) cookies - one per cookie or placeholder,
+   as many as fit -; it is the wire format of C11_reply, within 1024 bytes; every cookie names the
+   provider's current key, which Get hands out at that time (valid now), opens under it to the
+   client's session keys, and is newer than every cookie sent so far; through all rotations: the
+   provider is any state reached by Current/Get calls at non-decreasing times *)
+Theorem C11_concrete_reply : forall (K : crypto) (P : provider) s o s' ob reply cs cur,
+  wreach K P s -> wf_op o -> wstep K P s o = Some (s', ob) -> ob_reply ob = Some (reply, cs, cur) ->
+  exists req, ob_sent ob = Some req /\
+    reply_good (k_seal K) (k_keyid K) (k_opencookie K) (p_state P) (p_get P) (k_cid K) (k_L K) s s' o req reply cs cur.
+Proof. exact W_reply. Qed.
+Print Assumptions C11_concrete_reply.
+
+(* the oracle's predicates on datagrams accept what the model sends: every request ... *)
+Theorem C11_model_meets_oracle_request : forall (K : crypto) (P : provider) s o s' ob req,
+  wreach K P s -> wf_op o -> wstep K P s o = Some (s', ob) -> ob_sent ob = Some req ->
+  request_ok (level_at (p_state P) s) req = true.
+Proof. exact W_request_ok. Qed.
+Print Assumptions C11_model_meets_oracle_request.
+
+(* ... and every reply, with the facts the harness collects about its cookies (key identifier, opening
+   under the key Get returns), against any set of cookies known from before *)
+Theorem C11_model_meets_oracle_reply : forall (K : crypto) (P : provider) s o s' ob req reply cs cur known,
+  wreach K P s -> wf_op o -> wstep K P s o = Some (s', ob) ->
+  ob_sent ob = Some req -> ob_reply ob = Some (reply, cs, cur) ->
+  (forall x, In x known -> In x (cs_sent s') \/ (k_cid K x < sv_next (cs_server s))%nat) ->
+  reply_ok req reply true
+    (map (facts_of (k_keyid K) (k_opencookie K) (p_state P) (p_get P) (sv_prov (cs_server s')) (cs_now s')) cs)
+    (c2s (cs_client s')) (s2c (cs_client s')) known (sk_id cur) = true.
+Proof. exact W_reply_ok. Qed.
+Print Assumptions C11_model_meets_oracle_reply.
+
+(* DecodePacket reads back what EncodePacket wrote: the client's request ... *)
+Theorem C11_decode_request : forall (seal : bytes -> bytes -> bytes -> bytes -> bytes),
+  (forall k n p a, zlen (seal k n p a) = zlen p + 16) ->
+  forall hdr id c nonce key n,
+  zlen hdr = 48 -> zlen id = 32 -> zlen c mod 4 = 0 -> zlen nonce = 16 ->
+  zlen (request_wire seal hdr id c nonce key n) <= MaxPacketLen ->
+  let pre := hdr ++ enc_field extUniqueIdentifier id ++ enc_field extCookie c ++
+             concat (repeat (enc_field extCookiePlaceholder (repeat 0 (length c))) n) in
+  request_wire seal hdr id c nonce key n = pre ++ enc_auth nonce (seal key nonce [] pre) /\
+  decode_packet (request_wire seal hdr id c nonce key n) =
+    Ok {| d_uid := Some id; d_cookies := [c]; d_nplaceholders := Z.of_nat n;
+          d_auth := Some (zlen pre, nonce, seal key nonce [] pre) |}.
+Proof. intros seal Hs. exact (decode_request seal Hs). Qed.
+Print Assumptions C11_decode_request.
+
+(* ... and the server's reply, whose plaintext holds exactly the cookies *)
+Theorem C11_decode_reply : forall (seal : bytes -> bytes -> bytes -> bytes -> bytes),
+  (forall k n p a, zlen (seal k n p a) = zlen p + 16) ->
+  forall hdr uid nonce key (sent : list bytes),
+  zlen hdr = 48 -> 32 <= zlen uid -> zlen uid mod 4 = 0 -> zlen nonce = 16 ->
+  zlen (reply_wire seal hdr uid nonce key sent) <= MaxPacketLen ->
+  let pre := hdr ++ enc_field extUniqueIdentifier uid in
+  let plain := concat (map (enc_field extCookie) sent) in
+  decode_packet (reply_wire seal hdr uid nonce key sent) =
+    Ok {| d_uid := Some uid; d_cookies := []; d_nplaceholders := 0;
+          d_auth := Some (zlen pre, nonce, seal key nonce plain pre) |}.
+Proof. intros seal Hs. exact (decode_reply seal Hs). Qed.
+Print Assumptions C11_decode_reply.
+
+(* the provider of C12 (Model/Provider.v) is an instance: the four facts follow from C12's invariant *)
+Theorem C11_provider_is_c12 :
+  p_state c12_provider = Provider.state /\
+  (forall t0 p, new_provider t0 = Some p -> p_inv c12_provider t0 p).
+Proof. split; [reflexivity|exact c12_new]. Qed.
+Print Assumptions C11_provider_is_c12.
+
+(* with C12's provider nothing is assumed of the provider any more *)
+Theorem C11_concrete_no_reuse_c12 : forall (K : crypto) s, wreach K c12_provider s -> NoDup (cs_sent s).
+Proof. intros K. exact (W_no_reuse K c12_provider). Qed.
+Print Assumptions C11_concrete_no_reuse_c12.
+
 (* ---------- the hypotheses are satisfiable; the definitions compute ---------- *)
 
 Example issue_fresh_example : forall i j : nat, (fun n => n) i = (fun n => n) j -> i = j.
 Proof. intros i j H. exact H. Qed.
 
-Definition toy_seal (k n p a : bytes) : bytes := repeat 0 16 ++ p.
-Definition toy_open (k n c a : bytes) : option bytes := Some (skipn 16 c).
-Example toy_seal_len : forall k n p a, zlen (toy_seal k n p a) = zlen p + 16.
-Proof. intros. unfold toy_seal, zlen. rewrite app_length, repeat_length. lia. Qed.
-Example toy_open_seal : forall k n p a, toy_open k n (toy_seal k n p a) a = Some p.
+Definition ex_seal (k n p a : bytes) : bytes := repeat 0 16 ++ p.
+Definition ex_open (k n c a : bytes) : option bytes := Some (skipn 16 c).
+Example ex_seal_len : forall k n p a, zlen (ex_seal k n p a) = zlen p + 16.
+Proof. intros. unfold ex_seal, zlen. rewrite app_length, repeat_length. lia. Qed.
+Example ex_open_seal : forall k n p a, ex_open k n (ex_seal k n p a) a = Some p.
 Proof. intros. reflexivity. Qed.
 
-Definition ok_call : exch := {| e_ke_ok := true; e_ok := true; e_skip := 3 |}.
-Definition lost_call : exch := {| e_ke_ok := true; e_ok := false; e_skip := 0 |}.
+Definition ok_call : exch := {| e_ke_ok := true; e_ok := true; e_skip := 3; e_waste := 0; e_nosend := false |}.
+Definition lost_call : exch := {| e_ke_ok := true; e_ok := false; e_skip := 0; e_waste := 2; e_nosend := false |}.
 (* pool sizes along: success, 7 losses (down to level 1), success (1 -> 7), success (-> 8) *)
 Example pool_levels_example :
   map (fun n => length (s_pool (sys_run (fun k => k) 124 sys0 (firstn n (ok_call :: repeat lost_call 7 ++ [ok_call; ok_call])))))
@@ -249,3 +387,7 @@ Example rekey_example :
   map (fun n => length (s_pool (sys_run (fun k => k) 124 sys0 (firstn n (repeat lost_call 9 ++ [ok_call])))))
       (seq 1 10) = [7; 6; 5; 4; 3; 2; 1; 0; 7; 8]%nat.
 Proof. vm_compute. reflexivity. Qed.
+
+(* the crypto assumptions are consistent: a (useless) instance *)
+Example crypto_consistent : crypto.
+Proof. exact toy_crypto. Qed.
